@@ -286,3 +286,46 @@ func TestDemoD12ExtractPointsOneStale(t *testing.T) {
 		t.Fatalf("current=%v remaining=%v; want 2 current points and 1 remaining", cur, rest)
 	}
 }
+
+// D13 (C15.R7): a file that opens successfully but whose base interval (first
+// slot of the archive) is not a multiple of the step makes the slot-range
+// arithmetic of fetchRawPoints disagree with the length of its result slice.
+func TestDemoD13MisalignedBaseInterval(t *testing.T) {
+	path := demoTempFile(t)
+	db, err := Create(path, demoMustParse(t, "10s:100s"), Sum, 0)
+	if err != nil {
+		t.Fatal(err)
+	}
+	now := Timestamp(1000)
+	if err := db.UpdatePointForArchive(0, now, 1, now); err != nil {
+		t.Fatal(err)
+	}
+	if err := db.Sync(); err != nil {
+		t.Fatal(err)
+	}
+	db.Close()
+	// damage: base interval := now-5 (not aligned to 10s)
+	raw, err := ioutil.ReadFile(path)
+	if err != nil {
+		t.Fatal(err)
+	}
+	binary.BigEndian.PutUint32(raw[28:], uint32(now-5))
+	if err := ioutil.WriteFile(path, raw, 0644); err != nil {
+		t.Fatal(err)
+	}
+	db, err = Open(path)
+	if err != nil {
+		return // rejecting the damaged file is fine too
+	}
+	defer db.Close()
+	defer func() {
+		if r := recover(); r != nil {
+			t.Fatalf("fetch on a damaged (but opened) file panicked: %v", r)
+		}
+	}()
+	for from := now - 100; from < now; from++ {
+		for until := from; until <= now; until += 3 {
+			db.FetchFromArchive(0, from, until, now)
+		}
+	}
+}
